@@ -1389,6 +1389,10 @@ class C20:
                 epi.append(("raw_sete", tgt, ("bin", "+", ("ref", lst + (("c", re_.choice(il)),)), ("lit", 1000))))
             elif k == "roundfloat" and fl:
                 epi.append(("raw_sete", tgt, ("bi", "round", ("ref", re_.choice(fl)), (1.5,))))
+        if lists and re_.random() < 0.5:
+            # an unhashable subscript on a list/array held by the manager: refs are hashable, so this is a TypeError
+            epi.append(("raw_badkey", re_.choice(lists), re_.choice(["list", "list1", "dict", "set"]),
+                        re_.choice([("lit", 2.5), ("ref", re_.choice(fl))] if fl else [("lit", 2.5)])))
         return {"cfg": cfg, "spec": spec.to_json(), "ops": ops, "epilogue": epi}
 
     @staticmethod
@@ -1437,10 +1441,19 @@ class C20:
                 ex.count("exceptions_in_transcript")
         if stopped is None:
             for j, op in enumerate(case.get("epilogue", ())):
-                _, path, ast = op
                 try:
                     w = ex.world
-                    tr, exc = run_traced(lambda: w._assign(path, w.build(ast), "item"))
+                    if op[0] == "raw_badkey":
+                        _, path, kk, ast = op
+                        key = {"list": [0, 1], "list1": [0], "dict": {}, "set": set([0])}[kk]
+
+                        def badkey():
+                            w.build(("ref", tuple(path)))[key] = w.build(ast)
+                        tr, exc = run_traced(badkey)
+                        ex.count("epilogue_unhashable_key")
+                    else:
+                        _, path, ast = op
+                        tr, exc = run_traced(lambda: w._assign(path, w.build(ast), "item"))
                 except SimStall:
                     raise
                 if isinstance(exc, SimStall):
